@@ -1,9 +1,10 @@
 """C12 — checksum and size verification passes only for files that really match (structural clauses)."""
 from lib import *
 from rules.distinfo_common import *
+from rules.c13 import patch_filter
 
 EXPLANATION = (
-    "D1 hash-by-type table: Distfile -> Digest::hash_file, Patchfile -> Digest::hash_patch, identical in verify_checksum_internal and calculate_checksum; "
+    "D1 hash-by-type table: Distfile -> Digest::hash_file, Patchfile -> Digest::hash_patch, identical in verify_checksum_internal and calculate_checksum; the patch hash skips exactly the lines containing $NetBSD (filter-shape rule shared with C13); "
     "D2 verdicts are full equality tests (String != String on computed vs recorded hash, u64 != on file length vs recorded size) with error payloads in (expected, actual) order; "
     "absent size -> MissingSize, no matching digest -> MissingChecksum, digest filter by PartialEq on Digest; I/O and digest errors propagated with `?`; "
     "D3 find_entry grows the candidate key by prepending components in reverse order and returns the first hit, exhaustion -> NotFound; the Distinfo::verify_* wrappers call find_entry first and propagate its error")
@@ -34,6 +35,8 @@ def type_table(ctx, fn, scrut_pred):
 
 def run(ctx):
     fx = ctx.fx
+    # the patch hash that verification compares against must drop every line containing $NetBSD (shared with C13 D5)
+    patch_filter(ctx, fx, spec("digests.json"))
     # ---- D1
     tabs = {}
     for fn, pred in ((VCI, lambda t: isinstance(t, tuple) and t[0] == "field" and t[3] == "filetype"),
